@@ -2,6 +2,7 @@
 subset -- DESIGN 2.3/2.4 and Appendix A.  One interpreter for both domains (see dom.py)."""
 from __future__ import annotations
 import itertools
+import re
 import z3
 from . import dom as D
 from . import vhdl_parse as P
@@ -500,8 +501,9 @@ class Sim:
             fp.var_rbw = ex.var_rbw
             label = fp.implicit.label if fp.info is None else fp.name
             fp.wunits = ex.wunits
+            stmt = None if fp.info is None else re.sub(r"line=\d+", "", repr(fp.info.node))
             for w in fp.writes:
-                self.drivers.setdefault(w, []).append((label, ex.wunits.get(w)))
+                self.drivers.setdefault(w, []).append((label, ex.wunits.get(w), (fp.prefix, stmt)))
             if fp.info is None or fp.info.sens == "implicit":
                 fp.sens = set(fp.reads)
             elif fp.info.sens == "all":
@@ -520,6 +522,8 @@ class Sim:
                     ui, uj = ds[i][1], ds[j][1]
                     if _units_overlap(ui, uj):
                         if ds[i][0].startswith("<") and ds[j][0].startswith("<") and ds[i][0].split("@")[0] in ("<concurrent", "<select") and ds[j][0].split("@")[0] in ("<concurrent", "<select"):
+                            if ds[i][2][1] is not None and ds[i][2] == ds[j][2]:
+                                continue  # textually identical concurrent statement repeated: both drivers carry the same 0/1 value
                             # two anonymous concurrent statements: legal for resolved types (value = resolution
                             # function); the two-valued model cannot represent a conflict
                             raise Unsupported(f"overlapping concurrent drivers on {s} (resolution function)")
